@@ -133,7 +133,19 @@ extern "C" __attribute__((used)) void T_remover_session() {
 extern "C" __attribute__((used)) void T_epoch() { epoch_manager::epoch_thread(); }
 extern "C" __attribute__((used)) void T_gc() { epoch_manager::gc_thread(); }
 
-YK_HARNESS H_c07_protocol() {
+// thread ids: 0 reader session, 1 remover session, 2 epoch thread, 3 gc thread
+#ifndef C07_TEMPLATE
+#define C07_TEMPLATE 0
+#endif
+template<int TPL>
+static inline void c07_protocol() {
+    // schedule templates (which threads may run in which context; every pre-emption POINT stays symbolic):
+    // 1: remover, epoch, reader, remover, gc, reader   2: reader, remover, epoch, gc, reader, epoch|gc
+    if (TPL == 1) {
+        yk_allow_ctx(0, 2); yk_allow_ctx(1, 4); yk_allow_ctx(2, 1); yk_allow_ctx(3, 2); yk_allow_ctx(4, 8); yk_allow_ctx(5, 1);
+    } else if (TPL == 2) {
+        yk_allow_ctx(0, 1); yk_allow_ctx(1, 2); yk_allow_ctx(2, 4); yk_allow_ctx(3, 8); yk_allow_ctx(4, 1); yk_allow_ctx(5, 12);
+    }
     thread_info_table::init();
     unsigned char b = yk_nondet_u8();
     g_cell = value::create_value<false>(&b, 1, static_cast<value_align_type>(1));
@@ -148,3 +160,48 @@ YK_HARNESS H_c07_protocol() {
     if (g_r_retired) YK_REACH();
     YK_REACH();
 }
+YK_HARNESS H_c07_protocol_t1() { c07_protocol<1>(); }
+YK_HARNESS H_c07_protocol_t2() { c07_protocol<2>(); }
+YK_HARNESS H_c07_protocol_any() { c07_protocol<0>(); }
+
+// ---- C07(i), lean form: the reader session stays OPEN at the end of the schedule; the gc pass is then run to completion
+// (real thread_info_table::gc(), twice) while that session is still open: nothing the reader obtained may be released.
+// Threads: reader (enter; read the pointer), remover (enter; unlink; retire; leave), epoch thread.
+namespace {
+Token g_rd_tok = nullptr;
+value* g_rd_p = nullptr;
+} // namespace
+extern "C" __attribute__((used)) void T_reader_open() {
+    if (enter(g_rd_tok) != status::OK) {
+        g_rd_tok = nullptr;
+        return;
+    }
+    yakushima_verif_hook(0, &g_cell);
+    g_rd_p = g_cell; // pointer handed out inside the (still open) session
+}
+template<int TPL>
+static inline void c07_lean() {
+    if (TPL == 1) { // remover, epoch, reader, remover
+        yk_allow_ctx(0, 2); yk_allow_ctx(1, 4); yk_allow_ctx(2, 1); yk_allow_ctx(3, 2);
+    }
+    thread_info_table::init();
+    unsigned char b = yk_nondet_u8();
+    g_cell = value::create_value<false>(&b, 1, static_cast<value_align_type>(1));
+    g_blk = std::get<0>(value::get_gc_info(g_cell));
+    yk_thread(0, &T_reader_open);
+    yk_thread(1, &T_remover_session);
+    yk_thread(2, &T_epoch);
+    yk_run_threads(TPL == 1 ? 4 : CTX);
+    // quiescence of the workers; the reader's session is still open.  Let the collector run.
+    thread_info_table::gc();
+    thread_info_table::gc();
+    if (g_rd_tok != nullptr && g_rd_p != nullptr) {
+        YK_ASSERT(yk_is_live(g_blk)); // obtained inside a session that has not left: must not have been released
+        YK_ASSERT(*static_cast<unsigned char*>(value::get_body(g_rd_p)) == b);
+        if (g_r_retired) YK_REACH();
+    }
+    if (g_r_retired && g_rd_p == nullptr && !yk_is_live(g_blk)) YK_REACH(); // retired before the reader looked: reclaimed, fine
+    YK_REACH();
+}
+YK_HARNESS H_c07_lean_t1() { c07_lean<1>(); }
+YK_HARNESS H_c07_lean_any() { c07_lean<0>(); }
